@@ -32,13 +32,26 @@ func (e *executionContext) complete() {
 }
 
 func (e *executionContext) AppendLog(ctx context.Context, log *ledger.Log) (*ledger.ChainedLog, chan struct{}, error) {
+	return e.appendLog(ctx, func() *ledger.Log {
+		return log
+	})
+}
+
+// appendLog builds the log entry, chains it and hands it to the batcher in one critical section, so that
+// log ids, transaction ids (allocated by build) and the order in which the batcher receives the entries
+// always agree, whatever the interleaving of concurrent writers.
+func (e *executionContext) appendLog(ctx context.Context, build func() *ledger.Log) (*ledger.ChainedLog, chan struct{}, error) {
 	if e.parameters.DryRun {
 		ret := make(chan struct{})
 		close(ret)
-		return log.ChainLog(nil), ret, nil
+		return build().ChainLog(nil), ret, nil
 	}
 
-	chainedLog := e.commander.chainLog(log)
+	verifhook.Yield(ctx, "append.enter")
+	e.commander.appendMu.Lock()
+	defer e.commander.appendMu.Unlock()
+
+	chainedLog := e.commander.chainLog(build())
 	verifhook.Yield(ctx, "chained", "id", chainedLog.ID)
 	logging.FromContext(ctx).WithFields(map[string]any{
 		"id": chainedLog.ID,
